@@ -48,7 +48,7 @@ func (t Translator) FromArrai(v rel.Value) (interface{}, error) {
 			case rel.TrueSet:
 				return true, nil
 			default:
-				return b.(rel.GenericSet).IsTrue(), nil
+				return nil, fmt.Errorf("value in (b: ...) must be true or false, not %s", b)
 			}
 		}
 		return nil, fmt.Errorf("cannot convert tuple %s to an object", v)
@@ -90,7 +90,15 @@ func (t Translator) objFromArraiDict(v rel.Dict) (map[string]interface{}, error)
 		if err != nil {
 			return nil, err
 		}
-		maps[keydata.(string)] = valuedata
+		keystr, is := keydata.(string)
+		if !is {
+			if _, empty := key.(rel.EmptySet); !empty {
+				return nil, fmt.Errorf("dict key must be a string, not %s", rel.ValueTypeAsString(key))
+			}
+			// The empty string is the empty set.
+			keystr = ""
+		}
+		maps[keystr] = valuedata
 	}
 	return maps, nil
 }
